@@ -148,6 +148,19 @@ Fixpoint walk03 (k : case03) (prev : obs) (l : list (dact * obs)) : bool :=
         | DAnswer _ | DRelL => true
         | _ => if o_head prev =? o_head o then o_hid prev =? o_hid o else true
         end)
+    (* a getter error - of whatever kind - only aborts the attempt: State reports it, Store and subjective head are
+       as before (C07_error_aborts_only_attempt: the target is not dropped, what follows is verified against it) *)
+    && (match a with
+        | DAnswer AErr => o_err o && (o_head o =? o_head prev) && (o_local o =? o_local prev) && (o_lid o =? o_lid prev)
+        | _ => true
+        end)
+    (* a network head answer that comes with an error is adopted by nobody: not by the Head() call that asked, not by
+       one that joined its request *)
+    && (match a with
+        | DHead None | DHeadP None => same_state prev o
+        | DRelT j => match nth_call (q_acts k) j with Some (DHeadP None) => same_state prev o | _ => true end
+        | _ => true
+        end)
     && (match a with
         | DDeliver h now b | DDeliverP h now b =>
           if o_ret o =? 3 then true                    (* parked behind incomingMu / the gate: decided later *)
